@@ -3,7 +3,9 @@
 //!
 //! Case line: `<pipeline> <tok> <tok> …` — see `lean/Driver/Aggregation.lean` for the token grammar
 //! (the same line is sent to the Lean driver). Additional, oracle-only / trace pipelines:
-//!   `timed <interval ms> <tok>…`   WorkerSink with a short flush interval; toks `s0=<input>`, `p<ms>` (sleep), `F0`
+//!   `timed <interval> <tok>…`   WorkerSink with a real flush interval (`<n>` ms | `ns<n>` | `s<n>` | `max`; boundary
+//!        stream: 0, 1 ns, 1 ms, 1 h, 100 y, u64::MAX/2 s, u64::MAX s, Duration::MAX); toks `s0=<input>`, `p<ms>` (sleep), `F0`
+//!   `cap` / `keyonly`   SortAndMerge<0|1|2> inline capacities; an aggregated struct with a key and no aggregated field
 //!   `mt <kind> <producers> <flushes> <tok>…`  kind `w` (WorkerSink) | `m` (MutexSink); toks `s<p>=<input>`:
 //!        producer thread p merges the inputs carrying its number, in order; a flusher thread issues the flushes
 //!
@@ -35,6 +37,7 @@ use metrique::writer::BoxEntrySink;
 use metrique::CloseValue;
 use metrique_aggregation::aggregate;
 use metrique_aggregation::aggregator::{Aggregate, KeyedAggregator};
+use metrique_aggregation::histogram::{Histogram, SortAndMerge};
 use metrique_aggregation::sink::{MergeOnDrop, MutexSink, NonAggregatedSink, TeeSink, WorkerSink, non_aggregate};
 use metrique_aggregation::traits::{AggregateSink, AggregateSinkRef, AggregateStrategy, FlushableSink, Key, RootSink};
 use metrique_aggregation::value::{Distribution, Flatten, KeepLast, MergeOptions, Sum};
@@ -128,6 +131,32 @@ pub struct Plain {
     #[metrics(flatten)]
     #[aggregate(strategy = Flatten, clone)]
     inner: Inner,
+}
+
+/// inline-capacity boundary of `SortAndMerge<N>`: the same observations through N = 0, 1, 2
+#[aggregate]
+#[metrics]
+pub struct Cap {
+    #[aggregate(strategy = Histogram<Obs, SortAndMerge<0>>)]
+    c0: Obs,
+    #[aggregate(strategy = Histogram<Obs, SortAndMerge<1>>)]
+    c1: Obs,
+    #[aggregate(strategy = Histogram<Obs, SortAndMerge<2>>)]
+    c2: Obs,
+}
+
+#[metrics]
+struct ParentC {
+    #[metrics(flatten)]
+    caps: Aggregate<Cap>,
+}
+
+/// an aggregated struct with no aggregated field at all: only its key
+#[aggregate]
+#[metrics]
+pub struct KeyOnly {
+    #[aggregate(key)]
+    endpoint: String,
 }
 
 #[metrics]
@@ -383,7 +412,7 @@ impl Case {
 // ------------------------------------------------------------------------------------------------
 // Observed aggregates
 
-#[derive(Clone, Debug, PartialEq)]
+#[derive(Clone, Debug, Default, PartialEq)]
 struct Agg {
     endpoint: Option<String>,
     shard: Option<u64>,
@@ -406,8 +435,8 @@ fn single(m: Option<&metrique_writer::test_util::Metric>) -> Option<u64> {
     }
 }
 
-fn agg_of(e: &TestEntry) -> Agg {
-    let dist = e.metrics.get("latency").and_then(|m| {
+fn dist_of(m: Option<&metrique_writer::test_util::Metric>) -> Option<Vec<(u64, u64)>> {
+    m.and_then(|m| {
         m.distribution
             .iter()
             .map(|o| match *o {
@@ -419,7 +448,11 @@ fn agg_of(e: &TestEntry) -> Agg {
                 _ => None,
             })
             .collect::<Option<Vec<_>>>()
-    });
+    })
+}
+
+fn agg_of(e: &TestEntry) -> Agg {
+    let dist = dist_of(e.metrics.get("latency"));
     Agg {
         endpoint: e.values.get("endpoint").cloned(),
         shard: single(e.metrics.get("shard")),
@@ -521,6 +554,15 @@ impl Run {
         for (i, (a, b)) in self.epochs.iter().enumerate() {
             let pref = if self.end_epoch == Some(i) { "end:" } else { "" };
             match pipeline {
+                "cap" => {
+                    let d: Vec<String> = a.iter().map(show_dist).collect();
+                    obs.push(if d.windows(2).all(|w| w[0] == w[1]) { d.first().cloned().unwrap_or_default() } else { format!("differ:{}", d.join("|")) });
+                }
+                "keyonly" => {
+                    let mut k: Vec<String> = a.iter().map(|x| x.endpoint.as_ref().map(|s| hex(s.as_bytes())).unwrap_or("?".into())).collect();
+                    k.sort();
+                    obs.push(if k.is_empty() { "-".into() } else { k.join(";") });
+                }
                 "tee" | "worker" => obs.push(format!("{pref}A[{}]B[{}]", show_list(a), show_list(b))),
                 _ => obs.push(format!("{pref}{}", show_list(a))),
             }
@@ -606,7 +648,10 @@ fn make_tee(delay_us: u64) -> (TeeInner, TeeParts) {
     let (raw, sraw) = Rec::new(0);
     let tee = TeeSink::new(
         KeyedAggregator::<Call, BoxEntrySink>::new(sa),
-        TeeSink::new(KeyedAggregator::<ByEndpointWeak, BoxEntrySink>::new(sb), non_aggregate(sraw)),
+        TeeSink::new(
+            KeyedAggregator::<ByEndpointWeak, BoxEntrySink>::new(sb),
+            if delay_us == 0 { non_aggregate(sraw) } else { NonAggregatedSink::new(sraw) },
+        ),
     );
     (tee, TeeParts { a, b, raw, seen_a: 0, seen_b: 0 })
 }
@@ -689,7 +734,10 @@ fn run_embedded(c: &Case) -> Run {
     let mut run = Run::default();
     let raw = test_entry_sink();
     let r = catch(|| {
-        let mut parent = ParentE { calls: Aggregate::default() };
+        // both constructors: `default()` and `new(<initial accumulator>)`
+        let mut parent = ParentE {
+            calls: if case_hash(&c.encode()) % 2 == 0 { Aggregate::default() } else { Aggregate::new(AggregatedPlain::default()) },
+        };
         for t in &c.toks {
             match (t.tag, &t.input) {
                 ('i', Some(i)) => parent.calls.insert(i.plain()),
@@ -712,7 +760,7 @@ fn run_embedded(c: &Case) -> Run {
 fn run_mutex(c: &Case) -> Run {
     let mut run = Run::default();
     let r = catch(|| {
-        let parent = ParentM { calls: MutexSink::new(Aggregate::default()) };
+        let parent = ParentM { calls: if case_hash(&c.encode()) % 2 == 0 { MutexSink::new(Aggregate::default()) } else { MutexSink::default() } };
         let mut guards: Vec<Option<AnyGuard>> = vec![];
         for t in &c.toks {
             match (t.tag, t.idx, &t.input) {
@@ -1110,8 +1158,68 @@ fn run_gated(c: &Case) -> Run {
     run
 }
 
+/// `cap`: the three distributions as canonical strings
+fn run_cap(c: &Case) -> Run {
+    let mut run = Run::default();
+    let r = catch(|| {
+        let mut parent = ParentC { caps: Aggregate::default() };
+        for t in &c.toks {
+            match (t.tag, &t.input) {
+                ('i', Some(i)) => parent.caps.insert(Cap { c0: Obs(i.obs.clone()), c1: Obs(i.obs.clone()), c2: Obs(i.obs.clone()) }),
+                _ => panic!("harness: bad token {}", t.encode()),
+            }
+        }
+        let e = test_metric(parent);
+        ["c0", "c1", "c2"].iter().map(|f| Agg { dist: dist_of(e.metrics.get(*f)), ..Default::default() }).collect::<Vec<_>>()
+    });
+    match r {
+        Ok(a) => run.epochs.push((a, vec![])),
+        Err(p) => run.trouble.push(format!("panic:{p}")),
+    }
+    run
+}
+
+fn show_dist(a: &Agg) -> String {
+    match &a.dist {
+        None => "?".to_string(),
+        Some(d) if d.is_empty() => "-".to_string(),
+        Some(d) => d.iter().map(|(v, c)| format!("{v}*{c}")).collect::<Vec<_>>().join("+"),
+    }
+}
+
+/// `keyonly`: per flush the emitted endpoints
+fn run_keyonly(c: &Case) -> Run {
+    let ts = test_entry_sink();
+    let mut run = Run::default();
+    let r = catch(|| {
+        let mut agg: KeyedAggregator<KeyOnly, BoxEntrySink> = KeyedAggregator::new(ts.sink.clone());
+        let mut seen = 0;
+        let mut epochs = vec![];
+        for t in &c.toks {
+            match (t.tag, &t.input) {
+                ('m', Some(i)) => agg.merge(KeyOnly { endpoint: i.endpoint.clone() }.close()),
+                ('f', None) => {
+                    agg.flush();
+                    let es = ts.inspector.entries();
+                    epochs.push((es[seen..].iter().map(agg_of).collect::<Vec<_>>(), vec![]));
+                    seen = es.len();
+                }
+                _ => panic!("harness: bad token {}", t.encode()),
+            }
+        }
+        epochs
+    });
+    match r {
+        Ok(e) => run.epochs = e,
+        Err(p) => run.trouble.push(format!("panic:{p}")),
+    }
+    run
+}
+
 fn run_impl(c: &Case) -> Run {
     match c.pipeline() {
+        "cap" => run_cap(c),
+        "keyonly" => run_keyonly(c),
         "gated" => run_gated(c),
         "keyed" => run_keyed(c),
         "tee" => run_tee(c),
@@ -1473,6 +1581,54 @@ fn oracle_gated(c: &Case, run: &Run) -> Option<String> {
 }
 
 fn oracle(c: &Case, run: &Run) -> Option<String> {
+    if c.pipeline() == "cap" {
+        if let Some(t) = run.trouble.first() {
+            return Some(format!("run failed: {t}"));
+        }
+        let mut want: BTreeMap<u64, u64> = BTreeMap::new();
+        for t in &c.toks {
+            for (v, n) in t.input.iter().flat_map(|i| i.obs.iter()) {
+                if *n > 0 {
+                    *want.entry(*v).or_insert(0) += n;
+                }
+            }
+        }
+        for (n, a) in run.epochs[0].0.iter().enumerate() {
+            let t = Totals { dist: want.clone(), ..Default::default() };
+            let probe = Agg { bytes: Some(0), opt: Some(0), inner: Some(0), last: None, ..a.clone() };
+            if let Some(w) = check_agg(&probe, &t) {
+                return Some(format!("SortAndMerge with inline capacity {n}: {w}"));
+            }
+        }
+        return None;
+    }
+    if c.pipeline() == "keyonly" {
+        if let Some(t) = run.trouble.first() {
+            return Some(format!("run failed: {t}"));
+        }
+        let mut epochs: Vec<std::collections::BTreeSet<String>> = vec![];
+        let mut cur = std::collections::BTreeSet::new();
+        for t in &c.toks {
+            match (t.tag, &t.input) {
+                ('f', _) => epochs.push(std::mem::take(&mut cur)),
+                (_, Some(i)) => {
+                    cur.insert(i.endpoint.clone());
+                }
+                _ => {}
+            }
+        }
+        if epochs.len() != run.epochs.len() {
+            return Some(format!("{} flush observations for {} flushes", run.epochs.len(), epochs.len()));
+        }
+        for (n, (want, (got, _))) in epochs.iter().zip(run.epochs.iter()).enumerate() {
+            let mut g: Vec<String> = got.iter().map(|a| a.endpoint.clone().unwrap_or_default()).collect();
+            g.sort();
+            if g != want.iter().cloned().collect::<Vec<_>>() {
+                return Some(format!("flush #{n}: a key-only aggregate emitted keys {g:?}, the epoch's distinct keys are {want:?}"));
+            }
+        }
+        return None;
+    }
     if c.pipeline() == "gated" {
         if let Some(t) = run.trouble.first() {
             return Some(match t.as_str() {
@@ -1641,6 +1797,21 @@ fn gen_case(rng: &mut Rng, pipeline: &str, nasty: bool, max_len: u64) -> Case {
             if rng.chance(4, 5) {
                 toks.push(Tok::new('f', None, None));
             }
+        }
+        "cap" => {
+            for _ in 0..n {
+                toks.push(Tok::new('i', None, Some(gen_input(rng, nasty))));
+            }
+        }
+        "keyonly" => {
+            for _ in 0..n {
+                if rng.chance(1, 5) {
+                    toks.push(Tok::new('f', None, None));
+                } else {
+                    toks.push(Tok::new('m', None, Some(gen_input(rng, nasty))));
+                }
+            }
+            toks.push(Tok::new('f', None, None));
         }
         "embedded" => {
             for _ in 0..n {
@@ -1852,16 +2023,44 @@ fn check_totals(ins: &[In], aggs: &[Agg], last_candidates: &BTreeMap<(String, u6
     None
 }
 
-/// `timed <ms> toks`: one producer, a real flush interval; returns (inputs, all emitted aggregates in order, trouble)
-fn run_timed(c: &Case) -> (Vec<In>, Vec<Agg>, Option<String>) {
-    let ms: u64 = c.head[1].parse().unwrap_or(3);
+/// interval of a `timed` case: `<n>` ms, `ns<n>`, `s<n>`, `max` (= `Duration::MAX`)
+fn parse_interval(s: &str) -> Option<Duration> {
+    if s == "max" {
+        Some(Duration::MAX)
+    } else if let Some(n) = s.strip_prefix("ns") {
+        Some(Duration::from_nanos(n.parse().ok()?))
+    } else if let Some(n) = s.strip_prefix('s') {
+        Some(Duration::from_secs(n.parse().ok()?))
+    } else {
+        Some(Duration::from_millis(s.parse().ok()?))
+    }
+}
+
+/// the boundary values of `WorkerSink::new`'s `flush_interval`: zero, the smallest, ordinary ones, and
+/// the ones an `Instant` cannot be advanced by ("never flush on a timer")
+const INTERVALS: &[&str] = &["ns0", "ns1", "1", "s3600", "s3155760000", "s9223372036854775807", "s18446744073709551615", "max"];
+
+struct TimedRun {
+    ins: Vec<In>,
+    aggs: Vec<Agg>,
+    /// at the completion of every explicit flush: (inputs sent so far, aggregates emitted so far)
+    barriers: Vec<(usize, usize)>,
+    trouble: Option<String>,
+}
+
+/// `timed <interval> toks`: one producer, a real flush interval
+fn run_timed(c: &Case) -> TimedRun {
+    let Some(interval) = parse_interval(&c.head[1]) else {
+        return TimedRun { ins: vec![], aggs: vec![], barriers: vec![], trouble: Some("harness: bad interval".into()) };
+    };
     let ts = test_entry_sink();
     let (dtx, drx) = mpsc::channel();
     let rt = rt();
     let agg = KeyedAggregator::<Call, BoxEntrySink>::new(ts.sink.clone());
     let w: WorkerSink<CallEntry, Probe<KeyedAggregator<Call, BoxEntrySink>>> =
-        WorkerSink::new(Probe { inner: agg, dropped: dtx }, Duration::from_millis(ms));
+        WorkerSink::new(Probe { inner: agg, dropped: dtx }, interval);
     let mut ins = vec![];
+    let mut barriers = vec![];
     let mut trouble = None;
     for t in &c.toks {
         match (t.tag, t.idx, &t.input) {
@@ -1872,9 +2071,16 @@ fn run_timed(c: &Case) -> (Vec<In>, Vec<Agg>, Option<String>) {
             ('p', Some(ms), None) => std::thread::sleep(Duration::from_millis(ms as u64)),
             ('F', _, None) => {
                 let r = catch(|| rt.block_on(async { tokio::time::timeout(exit_wait(), w.flush()).await }));
-                if !matches!(r, Ok(Ok(()))) {
-                    trouble = Some("flush did not complete".to_string());
-                    break;
+                match r {
+                    Ok(Ok(())) => barriers.push((ins.len(), ts.inspector.entries().len())),
+                    Ok(Err(_)) => {
+                        trouble = Some("a flush request did not complete within 20 s".to_string());
+                        break;
+                    }
+                    Err(p) => {
+                        trouble = Some(format!("a flush request panicked ({p}): the worker thread is gone"));
+                        break;
+                    }
                 }
             }
             _ => {}
@@ -1885,7 +2091,30 @@ fn run_timed(c: &Case) -> (Vec<In>, Vec<Agg>, Option<String>) {
         trouble = Some("worker thread did not terminate".into());
     }
     let aggs = ts.inspector.entries().iter().map(agg_of).collect();
-    (ins, aggs, trouble)
+    TimedRun { ins, aggs, barriers, trouble }
+}
+
+fn last_cands(ins: &[In]) -> BTreeMap<(String, u64), Vec<u64>> {
+    let mut cands = BTreeMap::new();
+    for i in ins {
+        cands.insert(key_a(i), vec![i.last]);
+    }
+    cands
+}
+
+/// conservation over the whole run, consecutive chunks per key, and at every completed flush exactly
+/// the inputs sent before it have been emitted (timer flushes may have split them anywhere)
+fn oracle_timed(r: &TimedRun) -> Option<String> {
+    if let Some(t) = &r.trouble {
+        return Some(t.clone());
+    }
+    for (k, (n_in, n_agg)) in r.barriers.iter().enumerate() {
+        let (ins, aggs) = (&r.ins[..*n_in], &r.aggs[..(*n_agg).min(r.aggs.len())]);
+        if let Some(w) = check_totals(ins, aggs, &last_cands(ins)) {
+            return Some(format!("when flush #{k} completed ({n_in} inputs sent before it): {w}"));
+        }
+    }
+    check_totals(&r.ins, &r.aggs, &last_cands(&r.ins)).or_else(|| check_chunks(&r.ins, &r.aggs))
 }
 
 /// with one producer the aggregates of a key, in emission order, must be consecutive chunks of its inputs
@@ -2159,6 +2388,22 @@ fn main() {
             }
             cases.push(Case { head: vec!["timed".into(), ms.to_string()], toks });
         }
+        // boundary stream of the flush interval: every value, with and without explicit flushes
+        let per_interval = if thorough { 60 } else { 6 };
+        for iv in INTERVALS {
+            for k in 0..per_interval {
+                let n = rng.range(1, if thorough { 40 } else { 20 });
+                let mut toks = vec![];
+                for _ in 0..n {
+                    match rng.below(10) {
+                        0 => toks.push(Tok::new('p', Some(rng.range(0, 2) as usize), None)),
+                        1 | 2 if k % 2 == 0 => toks.push(Tok::new('F', Some(0), None)),
+                        _ => toks.push(Tok::new('s', Some(0), Some(gen_input(&mut rng, false)))),
+                    }
+                }
+                cases.push(Case { head: vec!["timed".into(), iv.to_string()], toks });
+            }
+        }
         for k in 0..n_mt {
             let producers = rng.range(2, 4);
             let flushes = rng.range(0, 4);
@@ -2166,6 +2411,12 @@ fn main() {
             let toks = (0..n).map(|_| Tok::new('s', Some(rng.below(producers) as usize), Some(gen_input(&mut rng, false)))).collect();
             let kind = if k % 3 == 0 { "m" } else { "w" };
             cases.push(Case { head: vec!["mt".into(), kind.into(), producers.to_string(), flushes.to_string()], toks });
+        }
+        // degenerate shapes: inline capacity 0/1/2, an aggregate with no aggregated field
+        let n_deg = if thorough { 3000 } else { 150 };
+        for k in 0..n_deg {
+            cases.push(gen_case(&mut rng, "cap", k % 3 == 2, 12));
+            cases.push(gen_case(&mut rng, "keyonly", k % 3 == 2, 25));
         }
         // overlapping flush requests behind a gate
         let n_gated = if thorough { 8000 } else { 400 };
@@ -2195,19 +2446,27 @@ fn main() {
         }
         match c.pipeline() {
             "timed" => {
-                let (ins, aggs, trouble) = run_timed(c);
-                rep.case(&enc, ins.len() >= 2);
+                let r = run_timed(c);
+                rep.case(&enc, r.ins.len() >= 2);
                 rep.traces_validated += 1;
-                rep.bump_by("timed:aggregates emitted", aggs.len() as u64);
-                let mut cands = BTreeMap::new();
-                for i in &ins {
-                    cands.insert(key_a(i), vec![i.last]);
+                rep.bump(&format!("timed:interval:{}", c.head[1]));
+                rep.bump_by("timed:aggregates emitted", r.aggs.len() as u64);
+                rep.bump_by("timed:flush barriers checked", r.barriers.len() as u64);
+                if let Some(w) = oracle_timed(&r) {
+                    if w.contains("did not") {
+                        // a stuck thread: every re-run costs the full wait
+                        liveness_failures += 1;
+                        rep.oracle_failure("aggregation:worker-timed-flush", &enc, &show_list(&r.aggs), &w);
+                    } else {
+                        let small = shrink_case(c, |cc| oracle_timed(&run_timed(cc)).is_some());
+                        let r2 = run_timed(&small);
+                        match oracle_timed(&r2) {
+                            Some(w2) => rep.oracle_failure("aggregation:worker-timed-flush", &small.encode(), &show_list(&r2.aggs), &w2),
+                            None => rep.oracle_failure("aggregation:worker-timed-flush", &enc, &show_list(&r.aggs), &w),
+                        }
+                    }
                 }
-                let what = trouble.or_else(|| check_totals(&ins, &aggs, &cands)).or_else(|| check_chunks(&ins, &aggs));
-                if let Some(w) = what {
-                    rep.oracle_failure("aggregation:worker-timed-flush", &enc, &show_list(&aggs), &w);
-                }
-                requests.push(trace_request(false, &ins, &aggs));
+                requests.push(trace_request(false, &r.ins, &r.aggs));
                 answers.push((ci, "aggregation/trace-timed".into(), "ok".into()));
             }
             "mt" => {
